@@ -1,7 +1,7 @@
 (* C17 — qarray: element addressing, ownership and iteration.  Property theorems only;
    the proofs are in Qarray/Proofs.v, the model in Qarray/Model.v (tied to /repo by ./check C17). *)
 From Coq Require Import List NArith.
-From QV Require Import Qarray.Model Qarray.Proofs Qarray.ProofsHash Qarray.ProofsDist.
+From QV Require Import Qarray.Model Qarray.Proofs Qarray.ProofsHash.
 Local Open Scope N_scope.
 
 (* For every count, object size, distribution, tight flag, seg_pages, page size and shepherd count that the
@@ -58,62 +58,29 @@ Theorem c17_iter_exact_all_same :
 Proof. exact iter_exact_allsame. Qed.
 Print Assumptions c17_iter_exact_all_same.
 
-(* FIXED_HASH arrays (the default of qarray_create), any number of shepherds, any segment size: every range that
-   starts on a segment boundary is visited exactly once, each index on the shepherd that owns it, by qarray_iter
-   and by the loop striders.  The guard `start mod segment_size = 0` excludes exactly the known finding below. *)
-Theorem c17_iter_exact_fixed_hash_aligned :
+(* FIXED_HASH arrays (the default of qarray_create), any number of shepherds, any segment size: EVERY non-empty
+   range [start, stop) -- aligned to segment boundaries or not -- is visited exactly once, each index on the
+   shepherd that owns it, by qarray_iter and by the loop striders. *)
+Theorem c17_iter_exact_fixed_hash :
   forall nsheps asg a start stop,
-    d_kind a = FIXED_HASH -> 0 < nsheps -> 0 < d_segsize a ->
-    start mod d_segsize a = 0 -> start < stop ->
+    d_kind a = FIXED_HASH -> 0 < nsheps -> 0 < d_segsize a -> start < stop ->
     iter_exact nsheps asg a start stop (iter nsheps asg a start stop) /\
     iter_exact nsheps asg a start stop (iter_loop nsheps asg a start stop).
-Proof. intros nsheps asg a start stop K Hn Hss. exact (iter_exact_hash_aligned nsheps asg a K Hn Hss start stop). Qed.
-Print Assumptions c17_iter_exact_fixed_hash_aligned.
+Proof. intros nsheps asg a start stop K Hn Hss. exact (iter_exact_hash nsheps asg a K Hn Hss start stop). Qed.
+Print Assumptions c17_iter_exact_fixed_hash.
 
-(* the hypotheses are satisfiable by a real multi-shepherd descriptor *)
+(* the hypotheses are satisfiable by a real multi-shepherd descriptor and an unaligned range *)
 Example c17_hash_nonvacuous :
   let a := create 5000 8 dFIXED_HASH false 1 4096 3 0 in
-  d_kind a = FIXED_HASH /\ 0 < d_segsize a /\ (512 mod d_segsize a = 0) /\ 512 < 4000 <= d_count a.
+  d_kind a = FIXED_HASH /\ 0 < d_segsize a /\ (100 mod d_segsize a <> 0) /\ 100 < 4000 <= d_count a.
 Proof. vm_compute. repeat split; discriminate. Qed.
 
-(* DIST arrays (DIST, DIST_RAND, DIST_STRIPES, DIST_FIELDS, DIST_LEAST: any assignment asg of segments to valid
-   shepherds): same statement, same guard. *)
-Theorem c17_iter_exact_dist_aligned :
-  forall nsheps asg a start stop,
-    d_kind a = DIST -> 0 < nsheps -> 0 < d_segsize a -> (forall q, asg q < nsheps) ->
-    start mod d_segsize a = 0 -> start < stop ->
-    iter_exact nsheps asg a start stop (iter nsheps asg a start stop) /\
-    iter_exact nsheps asg a start stop (iter_loop nsheps asg a start stop).
-Proof. intros nsheps asg a start stop K Hn Hss Hasg. exact (iter_exact_dist_aligned nsheps asg a K Hn Hss Hasg start stop). Qed.
-Print Assumptions c17_iter_exact_dist_aligned.
-
-(* The full statement (iter_exact for every kind and every sub-range) is FALSE of the faithful model, i.e. of
-   the unchanged code: witnesses (replayed on the real code by ./check C17; known_findings.json). *)
-Theorem c17_strider_midsegment_refuted :
-  exists a start stop,
-    d_kind a = FIXED_HASH /\ start < stop <= d_count a /\ start mod d_segsize a <> 0 /\
-    iter_exact_b 2 (fun _ => 0) a start stop (iter_loop 2 (fun _ => 0) a start stop) 512 = false.
-Proof. exact strider_midsegment_refuted. Qed.
-Print Assumptions c17_strider_midsegment_refuted.
-
-Theorem c17_fields_loopstrider_refuted :
-  exists a start stop,
-    d_kind a = FIXED_FIELDS /\ start < stop <= d_count a /\
-    covers (loop_strider 1 (fun _ => 0) a 0 start stop) (stop - 1) = 0%nat.
-Proof. exact fields_loopstrider_refuted. Qed.
-Print Assumptions c17_fields_loopstrider_refuted.
-
-Theorem c17_fields_midregion_refuted :
-  exists a start stop,
-    d_kind a = FIXED_FIELDS /\ start < stop <= d_count a /\
-    iter_exact_b 2 (fun _ => 0) a start stop (iter 2 (fun _ => 0) a start stop) 2049 = false.
-Proof. exact fields_midregion_refuted. Qed.
-Print Assumptions c17_fields_midregion_refuted.
-
-(* DIST: the shepherd-id slot does not fit behind the elements for every size combination. *)
-Theorem c17_shep_slot_refuted :
-  exists count obj segpages pagesize,
-    let a := create count obj dDIST true segpages pagesize 2 0 in
-    0 < d_segsize a /\ slot_fits a = false.
-Proof. exact shep_slot_refuted. Qed.
-Print Assumptions c17_shep_slot_refuted.
+(* DIST arrays: the shepherd id stored in each segment lies behind the last element, 4-byte aligned, inside the
+   segment -- for every size combination the code accepts (unit sizes below 4 included). *)
+Theorem c17_dist_slot_fits :
+  forall count obj d tight segpages pagesize nsheps oshep,
+    is_dist d = true ->
+    let a := create count obj d tight segpages pagesize nsheps oshep in
+    0 < d_segsize a -> slot_fits a = true /\ (shep_slot a) mod 4 = 0.
+Proof. exact dist_slot_fits. Qed.
+Print Assumptions c17_dist_slot_fits.
